@@ -42,6 +42,38 @@ def run(cmd, **kw):
 
 # ---------------------------------------------------------------- extraction
 TRANSLATE_STATUS = (True, 'not run')
+WIRE_STATUS = (True, 'not run')
+WIRE_PROPS = ('C02', 'C03', 'C04')       # properties whose <prop>T module is about Generated/TranslatedWire.lean (tools/c2lean_wire.py)
+
+
+def translate_status(prop):
+    return WIRE_STATUS if prop in WIRE_PROPS else TRANSLATE_STATUS
+
+
+def translate_wire():
+    """the byte writers (tools/c2lean_wire.py): regenerate Generated/TranslatedWire.lean from the working tree's lltdWire.c,
+    lltdTlvOps.c and lltdEndian.h.  Same contract as translate()."""
+    global WIRE_STATUS
+    sys.path.insert(0, os.path.join(VERIF, 'tools'))
+    import c2lean, c2lean_wire
+    target = os.path.join(LEAN, 'LLTD', 'Generated', 'TranslatedWire.lean')
+    try:
+        txt = c2lean_wire.translate(REPO, VERIF)
+    except c2lean.Unsupported as e:
+        WIRE_STATUS = (False, 'c2lean_wire: lltdWire.c / lltdTlvOps.c / lltdEndian.h have left the translatable subset: %s' % e)
+        return WIRE_STATUS
+    except Exception as e:
+        WIRE_STATUS = (False, 'c2lean_wire crashed: %r' % (e,))
+        return WIRE_STATUS
+    old = open(target).read() if os.path.exists(target) else None
+    if old != txt:
+        with open(target + '.tmp', 'w') as f:
+            f.write(txt)
+        os.replace(target + '.tmp', target)
+        WIRE_STATUS = (True, 'TranslatedWire.lean rewritten')
+    else:
+        WIRE_STATUS = (True, 'TranslatedWire.lean unchanged')
+    return WIRE_STATUS
 
 
 def translate():
@@ -75,6 +107,7 @@ def extract():
     Returns (ok, message)."""
     with Lock('extract'):
         translate()
+        translate_wire()
         out = os.path.join(BUILD, 'x')
         os.makedirs(out, exist_ok=True)
         core = os.path.join(REPO, 'lltdResponder')
